@@ -10,6 +10,6 @@ rsync -a --exclude .git /repo/ "$d/"
 ( cd "$d" && patch -p1 -s --no-backup-if-mismatch < "$patch" >/dev/null 2>&1 ) || { echo "$prop does-not-apply"; exit 3; }
 ( cd "$d" && GOFLAGS=-mod=readonly go build ./... >/dev/null 2>&1 ) || { echo "$prop does-not-build"; exit 4; }
 mkdir -p "$o/evidence/violations"; ln -s /verif/KNOWN_FINDINGS.txt "$o/KNOWN_FINDINGS.txt"; ln -s /verif/checker "$o/checker"
-out=$(bin/ergocheck -property "$prop" -repo "$d" -out "$o" 2>&1)
+out=$(${ERGOCHECK:-bin/ergocheck} -property "$prop" -repo "$d" -out "$o" 2>&1)
 rules=$(ls "$o/evidence/violations" 2>/dev/null | sed 's/[-_.].*//' | sort -u | tr '\n' ' ')
 if echo "$out" | grep -q "^VIOLATION"; then echo "$prop DETECTED $(echo "$out" | grep -o 'rule=[A-Z0-9]*' | sort -u | tr '\n' ' ')"; else echo "$prop MISSED"; fi
